@@ -28,12 +28,19 @@ def _violations(prop, repo, overlay):
     from mstatic import rules
     try:
         rules.run(ctx)
-        for r in ctx.rules:
-            r.finish()
     except AnalysisError as e:
         # a lost anchor / floor is also a detection (exit 2 at run time)
         return {('ANALYSIS-ERROR', str(e)[:120])}
-    return {(v.rule, v.construct) for r in ctx.rules for v in r.violations}
+    out = {(v.rule, v.construct) for r in ctx.rules for v in r.violations}
+    for e in getattr(ctx, 'analysis_errors', []) or []:
+        out.add(('ANALYSIS-ERROR', str(e)[:120]))
+    if not out:
+        try:
+            for r in ctx.rules:
+                r.finish()
+        except AnalysisError as e:
+            return {('ANALYSIS-ERROR', str(e)[:120])}
+    return out
 
 
 def apply_edit(src, old, new, count=1):
